@@ -178,6 +178,11 @@ def r1b(ctx: Ctx, reg: tuple[str, str, str]) -> list[Ob]:
         if not cons or any(c is None for _, c, _ in cons):
             out.append(unres("R1b", r.rule.qualname, f"key={r.key.name}", "return value is not a resolvable constructor call", r.rule.loc))
             continue
+        # a reference to an already compiled counterpart (TorchPointerParameter) is the same parameter, not another class
+        POINTER = "cirkit.backend.torch.parameters.nodes.TorchPointerParameter"
+        if len(classes) == 2 and POINTER in classes:
+            cons = [x for x in cons if x[1] is None or x[1].qualname != POINTER]
+            classes = classes - {POINTER}
         if len(classes) != 1:
             out.append(viol("R1b", r.rule.qualname, f"key={r.key.name}", f"return paths construct different classes {sorted(classes)}", r.rule.loc))
             continue
